@@ -282,6 +282,38 @@ func (p *pipeline) settle(want map[triple]bool, h0, k0 uint64) (string, bool) {
 	}
 }
 
+// settleAbsent waits until the watchers have seen the fake's current state and
+// none of the given triples is in the active table.
+func (p *pipeline) settleAbsent(gone map[triple]bool, h0 uint64) (string, bool) {
+	deadline := time.Now().Add(8 * time.Second)
+	sawQuiet := false
+	for {
+		quiet := false
+		if p.poll > 0 {
+			h, _ := p.fc.Served()
+			quiet = h >= h0+2 && p.fc.KVQuiesced(kvPath)
+		} else {
+			quiet = p.fc.Quiesced(kvPath)
+		}
+		if quiet {
+			sawQuiet = true
+		}
+		var still []string
+		for tr := range actual(route.GetTable()) {
+			if gone[tr] {
+				still = append(still, fmt.Sprintf("stale  %s %s -> %s", tr.svc, tr.src, tr.dst))
+			}
+		}
+		if len(still) == 0 && sawQuiet {
+			return "", true
+		}
+		if time.Now().After(deadline) {
+			sort.Strings(still)
+			return strings.Join(still, "\n"), sawQuiet
+		}
+		time.Sleep(300 * time.Microsecond)
+	}
+}
 
 // ---- generators
 
@@ -375,7 +407,7 @@ func runHistory(t *rapid.T, p *pipeline, withOdd bool) {
 	}
 	check("reset")
 	n := rapid.IntRange(5, hx.Pick(25, 100)).Draw(t, "nops")
-	transitions := 0
+	transitions, faults := 0, 0
 	oddPresent := false
 	for i := 0; i < n; i++ {
 		before := map[string]bool{}
@@ -383,8 +415,57 @@ func runHistory(t *rapid.T, p *pipeline, withOdd bool) {
 			before[k] = p.healthy(w, in)
 		}
 		var op string
-		kind := rapid.IntRange(0, 11).Draw(t, "op")
+		kind := rapid.IntRange(0, 12).Draw(t, "op")
 		keys := sortedKeys(w.inst)
+		if kind == 12 {
+			// fault injection: the catalog lookup of a service fails at the very rebuild in
+			// which one of its instances turns unhealthy.  Only the safety half of the
+			// property is asserted while the fault lasts (API errors are not registry
+			// states): whatever only that instance contributed must leave the table.
+			var cands []string
+			for _, k := range keys {
+				if p.healthy(w, w.inst[k]) && !strings.HasPrefix(w.inst[k].ID, "odd") {
+					cands = append(cands, k)
+				}
+			}
+			if len(cands) == 0 {
+				continue
+			}
+			k := rapid.SampledFrom(cands).Draw(t, "faultvictim")
+			in := w.inst[k]
+			wantBefore := p.expected(w)
+			for j := range in.Checks {
+				in.Checks[j] = "critical"
+			}
+			gone := map[triple]bool{}
+			after := p.expected(w)
+			for tr := range wantBefore {
+				if !after[tr] {
+					gone[tr] = true
+				}
+			}
+			fc.SetCatalogErr(in.Name, true)
+			fc.SetInstance(*in)
+			op := fmt.Sprintf("catalog lookups of %q fail while the checks of %s -> %q", in.Name, k, in.Checks)
+			hist = append(hist, op)
+			still, quiet := p.settleAbsent(gone, h0)
+			h0, k0 = fc.Served()
+			hx.Eval()
+			if still != "" {
+				if !quiet {
+					t.Fatalf("VERIF-INCONCLUSIVE watchers did not reach the registry's current state within the time limit after: %s", op)
+				}
+				t.Fatalf("an instance that has become unhealthy is still in the active table after that state was observed (the catalog lookup of its service failed at that rebuild)\n%s\nrule: accepted=%v strict=%v poll=%v\nhistory:\n%s\ntable:\n%s", still, p.accepted, p.strict, p.poll, strings.Join(hist, "\n"), route.GetTable().String())
+			}
+			hx.Class("history-with-catalog-fault-at-a-health-transition")
+			faults++
+			transitions++
+			// the fault ends; the next change of the registry brings the full table back
+			fc.SetCatalogErr(in.Name, false)
+			fc.Touch()
+			check("catalog lookups work again (index bumped)")
+			continue
+		}
 		switch {
 		case kind <= 2 || len(keys) == 0: // register (or re-register with new data)
 			in := genInstance(t, w)
@@ -486,6 +567,7 @@ func runHistory(t *rapid.T, p *pipeline, withOdd bool) {
 		hx.NonTrivial(strings.Join(hist, "\n"))
 		hx.Class("history-with-health-transition")
 	}
+	_ = faults
 	if withOdd && strings.Contains(strings.Join(hist, "\n"), "odd registration appears") {
 		hx.Class("history-with-odd-registration")
 		hx.NonTrivial("odd|" + strings.Join(hist, "\n"))
